@@ -34,8 +34,19 @@ const LINES: &[(&str, &str)] = &[
     ("1 / 0; let x = 7", ""), // fails before it would rebind x: the earlier x must survive
     ("fn f() { 1", ""),       // a block still open at the end of the line
     ("let x = [10, 20][5]", ""), // a let whose own initialiser fails: x keeps its earlier binding, or stays undefined
+    // -- only in the slot family: a statement that stores closures over its own variable and then fails
+    ("let r = [0, 0]", ""),
+    ("{ let s = 1; r[0] = fn() { s }; r[1] = fn(v) { s = v }; 1 / 0 }", "{ let s = 1; r[0] = fn() { s }; r[1] = fn(v) { s = v }; }"),
+    ("let u = 7", ""),
+    ("r[0]()", ""),
+    ("r[1](99)", ""),
+    ("u", ""),
 ];
 const CORE: usize = 12;
+/// the alphabet of the general families
+const FULL: usize = 23;
+/// the slot family: the lines above
+const SLOT: [usize; 6] = [23, 24, 25, 26, 27, 28];
 
 pub struct P23 {
     cases: Vec<Vec<usize>>,
@@ -43,7 +54,7 @@ pub struct P23 {
 impl P23 {
     pub fn new(tier: Tier) -> P23 {
         let mut cases = vec![];
-        let full = LINES.len();
+        let full = FULL;
         // leaves only: every prefix of a history is checked on the way
         let (l_full, l_core) = tier.pick((2u32, 3u32), (3, 4));
         for idx in 0..(full as u64).pow(l_full) {
@@ -51,6 +62,10 @@ impl P23 {
         }
         for idx in 0..(CORE as u64).pow(l_core) {
             cases.push(unrank(idx, &vec![CORE as u64; l_core as usize]).iter().map(|x| *x as usize).collect());
+        }
+        let l_slot = tier.pick(4u32, 5u32);
+        for idx in 0..(SLOT.len() as u64).pow(l_slot) {
+            cases.push(unrank(idx, &vec![SLOT.len() as u64; l_slot as usize]).iter().map(|x| SLOT[*x as usize]).collect());
         }
         if tier == Tier::Thorough {
             // long histories: every line of the alphabet after a fixed warm-up, twice
@@ -199,10 +214,10 @@ impl Property for P23 {
         CaseOut::pass(class).with_counts(states, hist.len() as u64, 1)
     }
     fn rule(&self) -> String {
-        format!("line alphabet {:?} (the first {} form the core); histories: every sequence of exactly 2 (thorough 3) lines over the full alphabet and of exactly 3 (thorough 4) lines over the core (prefixes are checked on the way), thorough adds 12-line histories with every pair of lines at two positions; each history is one run of the real run_prompt loop through the scripted line source, fed with exactly these lines (no marker lines: an interleaved line would itself be an accepted line and could repair the very state under test); oracle per line n: compile and run, in-process with the same compiler and VM, the script made of the accepted lines so far (a line that failed at run time contributes its statements before the failure) plus line n: the two output streams are consumed in order — rejected by the parser => diagnostics up to '<n> parse errors' on stderr; rejected by the compiler => exactly one 'compile error' line; value v => v's display text as the next stdout line when the line ends in an expression statement and v is not null (the echo rule of command mode), nothing otherwise; runtime error => one 'Runtime error' line with the same message; nothing may be left over on either stream", LINES.iter().map(|l| l.0).collect::<Vec<_>>(), CORE)
+        format!("line alphabet {:?} (the first {} form the core, the last 6 belong to the slot family only); histories: every sequence of exactly 2 (thorough 3) lines over the full alphabet and of exactly 3 (thorough 4) lines over the core (prefixes are checked on the way), and of exactly 4 (thorough 5) lines over the 6-line slot family (a statement that stores closures over its own block variable and then fails, later definitions, calls of the stored closures), thorough adds 12-line histories with every pair of lines at two positions; each history is one run of the real run_prompt loop through the scripted line source, fed with exactly these lines (no marker lines: an interleaved line would itself be an accepted line and could repair the very state under test); oracle per line n: compile and run, in-process with the same compiler and VM, the script made of the accepted lines so far (a line that failed at run time contributes its statements before the failure) plus line n: the two output streams are consumed in order — rejected by the parser => diagnostics up to '<n> parse errors' on stderr; rejected by the compiler => exactly one 'compile error' line; value v => v's display text as the next stdout line when the line ends in an expression statement and v is not null (the echo rule of command mode), nothing otherwise; runtime error => one 'Runtime error' line with the same message; nothing may be left over on either stream", LINES.iter().map(|l| l.0).collect::<Vec<_>>(), CORE)
     }
     fn bounds(&self) -> Value {
-        json!({"histories": self.cases.len(), "alphabet": LINES.len(), "core": CORE})
+        json!({"histories": self.cases.len(), "alphabet": FULL, "core": CORE, "slot_family": SLOT.len()})
     }
     fn assumptions(&self) -> Vec<String> {
         vec![
